@@ -164,6 +164,18 @@ func runUnit(u Unit, cfg *PropConfig, tier string, workdir string, res *checkRes
 	if v := os.Getenv("GOVC_TIMEOUT"); v != "" {
 		fmt.Sscanf(v, "%d", &timeout)
 	}
+	if cfg.Scope == "tagged" {
+		// this property's check counts contract clauses (and the invariants / preconditions they rest on);
+		// the zero-annotation safety sweep of code reached after them belongs to other properties
+		var keep []*Obligation
+		for _, o := range e.obligations {
+			if o.Kind == "safety" || o.Kind == "alloc" {
+				continue
+			}
+			keep = append(keep, o)
+		}
+		e.obligations = keep
+	}
 	e.discharge(workdir, timeout)
 	e.incClose()
 	// group
